@@ -6,6 +6,15 @@ NOTES = ('All checks are ./check <id>; each rebuilds a source-only overlay from 
 NOT_CLAIMED = {}
 
 PROPS = {
+    'C20': {
+        'modules': ['contracts.C20_cors'],
+        'level': 'proof',
+        'level_text': 'CORSMiddleware.process_response is loop-free; its post-condition is the full decision table over an arbitrary symbolic header map '
+                      '(String -> Option String) with frame (every other header unchanged), plus each security sentence of the statement as its own clause; '
+                      '__init__ normal form (a star inside an iterable raises). All configurations, origins, methods, header maps.',
+        'level_note': 'Response.get/set/delete_header are executed from their source (inlined). Trusted: Req stub (Request.get_header/method), membership '
+                      'of the request origin in a configured set as one boolean, Origin header is never the literal "*" (RFC 6454). cors_enable wiring not proved.',
+    },
     'C07': {
         'modules': ['contracts.C07_streams', 'contracts.C07_asgi_stream'],
         'level': 'proof',
